@@ -58,7 +58,7 @@ def programs_for(prop):
     ps = progs.corpus(big=True, include_fail=True)
     try:
         from .. import gen
-        n = 400 if common.tier() == "thorough" else 60
+        n = 400 if common.tier() == "thorough" else 100
         ps += gen.generated_programs(n, common.seed())
     except ImportError:
         pass
